@@ -33,4 +33,19 @@ def cases():
     add("or-in-if-branch", lambda c, a, b: E(S("if"), c, E(S("or"), a, b), a), 3)
     add("match", lambda s, a: E(S("match"), s, S("up"), a), 2)
     add("list", lambda a, b: List([a, b]), 2)
+    # an operand whose code is statements followed by a *user variable* (`(do STATEMENTS x)` compiles to exactly that): to a rule it
+    # looks like a child that left its value in a temporary, but the variable is the user's and must keep its value
+    SV = [("S",), ("L",), ("SE", "S", "T")]
+    for op in ("and", "or"):
+        add(f"{op}/first-operand-do-then-variable", lambda s, v, b, op=op: E(S(op), E(S("do"), s, v), b), 3, SV)
+        add(f"{op}/middle-operand-do-then-variable", lambda s, v, a, b, op=op: E(S(op), a, E(S("do"), s, v), b), 4,
+            [("S",), ("L",), ("E", "SE"), ("SE", "T")])
+    add("if/test-do-then-variable", lambda s, v, a, b: E(S("if"), E(S("do"), s, v), a, b), 4, [("S",), ("L",), ("SE", "T"), ("SE", "T")])
+    add("setv-from-do-then-variable", lambda s, v: E(S("do"), E(S("setv"), S("uy"), E(S("do"), s, v)), S("uy")), 2, [("S",), ("L",)])
+    add("cond/test-do-then-variable", lambda s, v, a, b, c: E(S("cond"), E(S("do"), s, v), a, b, c), 5,
+        [("S",), ("L",), ("SE", "T"), ("E", "SE"), ("SE", "T")])
+    add("while/test-do-then-variable", lambda s, v, b: E(S("while"), E(S("do"), s, v), b), 3, [("S",), ("L",), ("E", "SE")],
+        ctxkw=dict(atom_abrupt=("raise", "break", "continue"), abrupt_by={"t0": ("raise",)}))
+    add("match/subject-do-then-variable", lambda s, v, a: E(S("match"), E(S("do"), s, v), S("up"), a), 3, [("S",), ("L",), ("SE", "T")])
+    add("with/manager-do-then-variable", lambda s, v, b: E(S("with"), List([S("ua"), E(S("do"), s, v)]), b), 3, [("S",), ("L",), ("SE", "T")])
     return names
